@@ -1074,8 +1074,15 @@ class HeaderSet(cabc.MutableSet[str]):
         headers: cabc.Iterable[str] | None = None,
         on_update: cabc.Callable[[te.Self], None] | None = None,
     ) -> None:
-        self._headers = list(headers or ())
-        self._set = {x.lower() for x in self._headers}
+        self._headers: list[str] = []
+        self._set: set[str] = set()
+
+        # Like add(), keep only the first of several spellings of a header.
+        for header in headers or ():
+            if header.lower() not in self._set:
+                self._headers.append(header)
+                self._set.add(header.lower())
+
         self.on_update = on_update
 
     def add(self, header: str) -> None:
